@@ -600,7 +600,10 @@ func parseValue(p *cfgPrimitive, opts *options, str string, parseCfg parse.Confi
 		return newString(p.ctx, p.meta(), v), nil
 	}
 
-	sub, err := normalize(opts, ifc)
+	// the strings of a parsed text are literals, inside a list or an object as much as alone: a text is expanded once
+	parsedOpts := *opts
+	parsedOpts.varexp = false
+	sub, err := normalize(&parsedOpts, ifc)
 	if err != nil {
 		return nil, err
 	}
